@@ -135,6 +135,59 @@ pub fn run(tier: Tier) -> i32 {
         });
         ctx.scope_done(name, cells.len() as u64, t0, "full container grid");
     }
+    // ---------------------------------------------------------------- heterogeneous blocks: header sizes that shrink / grow from block to block
+    {
+        let name = "heterogeneous-blocks";
+        if ctx.may_start(name) {
+            let t0 = Instant::now();
+            let kinds: Vec<(bool, bool, usize)> = vec![(false, false, 0), (true, false, 0), (false, true, 1), (true, true, 0), (false, false, 3), (true, true, 6), (false, false, 250)];
+            let nk = kinds.len();
+            let total = crate::explore::count_upto(nk, 3);
+            par_for(total * 3, |i| {
+                let check = [0u8, 1, 4][(i % 3) as usize];
+                let seq = crate::explore::nth_seq(nk, 3, i / 3);
+                if seq.is_empty() {
+                    return;
+                }
+                let blocks: Vec<Block> = seq
+                    .iter()
+                    .enumerate()
+                    .map(|(b, &k)| {
+                        let (cs, us, pad) = kinds[k];
+                        let (p, plain) = payload((b + k) % 3, (b + 2 * k) % 4, b * 3 + k);
+                        Block { payload: p, plain, with_csize: cs, with_usize: us, extra_pad4: pad, ..Default::default() }
+                    })
+                    .collect();
+                let f = XzFile { check_id: check, blocks, ..Default::default() };
+                ctx.eval(1);
+                ctx.nontriv(1);
+                check_file(&ctx, &f, &format!("xz file with per-block header kinds {:?} (csize field, usize field, extra padding/4), check {}", seq.iter().map(|&k| kinds[k]).collect::<Vec<_>>(), check));
+            });
+            ctx.scope_done(name, total * 3, t0, "every sequence of <= 3 blocks over 7 header kinds (sizes 12..1012 bytes, shrinking and growing)");
+        }
+    }
+    // ---------------------------------------------------------------- every legal LZMA2 dictionary-size property byte
+    {
+        let name = "lzma2-dict-property-0..40";
+        if ctx.may_start(name) {
+            let t0 = Instant::now();
+            par_for(41 * 2, |i| {
+                let prop = (i / 2) as u8;
+                let nb = 1 + (i % 2) as usize;
+                let blocks: Vec<Block> = (0..nb)
+                    .map(|b| {
+                        let (p, plain) = payload(b % 3, b % 4, b + prop as usize);
+                        Block { payload: p, plain, o_filters: Some(vec![(xz::mbi(0x21), xz::mbi(1), vec![prop])]), ..Default::default() }
+                    })
+                    .collect();
+                let f = XzFile { check_id: 1, blocks, ..Default::default() };
+                ctx.eval(1);
+                ctx.nontriv(1);
+                check_file(&ctx, &f, &format!("xz file whose LZMA2 filter property byte is {} ({} block(s))", prop, nb));
+            });
+            ctx.scope_done(name, 82, t0, "dictionary size byte 0..=40 (40 = 4 GiB - 1)");
+        }
+    }
     // ---------------------------------------------------------------- multibyte integer widths as true sizes
     {
         let name = "multibyte-widths";
